@@ -1,3 +1,4 @@
+import NixModel.Gen.Types
 import NixModel.Store
 /-
   The nix entity layer over the abstract store: front-end argument checks (src/*.cpp, include/nix/*.hpp) followed by
@@ -175,7 +176,8 @@ def createInBlock (s : Store) (blk : ObjId) (kind name type id created : String)
 
 /-- element types with a file representation (data_type_to_h5_filetype) -/
 def dtypeStorable (dt : String) : Bool :=
-  ["Bool", "Char", "Float", "Double", "Int8", "Int16", "Int32", "Int64", "UInt8", "UInt16", "UInt32", "UInt64", "String", "Opaque"].contains dt
+  -- `data_type_to_h5_filetype` has a file type for it: read off the table that gen/extract_types.py takes from the source on every run
+  (Nix.Gen.Types.fileType.find? (·.1 == dt)).any (·.2 != "")
 
 /-- Block::createDataArray: front-end checks, then the backend refuses an element type without a file type, then creates -/
 def createDataArray (s : Store) (blk : ObjId) (name type id created dtype shape : String) : Res ObjId :=
